@@ -346,7 +346,7 @@ pub fn run(ctx: &Ctx) -> Report {
                         }
                     }
                     // (d) random schedules
-                    for _ in 0..ctx.pick(5, 300, 5000) {
+                    for _ in 0..ctx.pick(5, 2000, 10000) {
                         let n = 1 + rng.below(12) as usize;
                         let schedule: Vec<Fault> = (0..n)
                             .map(|_| match rng.below(10) {
@@ -364,7 +364,7 @@ pub fn run(ctx: &Ctx) -> Report {
         }
         Item::Bits(e, b) => {
             let mut rng = Rng::derive(ctx.seed, 0xC11B + b as u64 + (e == En::LE) as u64 * 100);
-            for _ in 0..ctx.pick(3, 300, 6000) {
+            for _ in 0..ctx.pick(3, 2000, 10000) {
                 let len = 1 + rng.below(25) as usize;
                 let ops = super::c01::random_ops(&mut rng, len, 8 * b, true);
                 let default = Fault::Limit(1 + rng.below(b as u64) as usize);
